@@ -650,8 +650,8 @@ class BoboDistributedTCP(BoboDistributed,
                 # If bytes received so far are at least the minimum length
                 # and end with the expected end bytes.
                 if (
-                        len(bytes_msg) >= self._crypto.min_length() and
-                        bytes_msg[-len(self._crypto.end_bytes()):]
+                        len(all_bytes) >= self._crypto.min_length() and
+                        all_bytes[-len(self._crypto.end_bytes()):]
                         == self._crypto.end_bytes()
                 ):
 
